@@ -97,24 +97,42 @@ pub fn run(ctx: &Ctx) -> i32 {
             let (k1, k2) = (SymmetricKey::from_data([7u8; 32]), SymmetricKey::from_data([8u8; 32]));
             let e1 = bind::build(&origs[1], 0); let e2 = Envelope::new("Another secret").add_assertion("x", "y");
             let mut r1 = SeededRandomNumberGenerator::new([9, 9, 9, 9]);
-            let mut r2 = SeededRandomNumberGenerator::new(if same_id { [9, 9, 9, 9] } else { [5, 5, 5, 5] });
             let s1: Vec<Envelope> = e1.encrypt_subject(&k1).unwrap().sskr_split_using(&spec, &k1, &mut r1).unwrap().into_iter().flatten().collect();
-            let s2: Vec<Envelope> = e2.encrypt_subject(&k2).unwrap().sskr_split_using(&spec, &k2, &mut r2).unwrap().into_iter().flatten().collect();
+            // the identifier of a split is the generator's first two bytes: equal seeds give the same identifier; for the "different identifier"
+            // case seeds are tried until the identifiers really differ (small seeds of this generator all start with the same bytes)
+            let ident = |e: &Envelope| -> Option<u16> { e.object_for_predicate(known_values::SSKR_SHARE).ok()?.extract_subject::<bc_components::SSKRShare>().ok().map(|s| s.identifier()) };
+            let mut s2: Vec<Envelope> = vec![];
+            for k in 0..64u64 {
+                let seed = if same_id { [9, 9, 9, 9] } else { [0x9E37_79B9_7F4A_7C15u64.wrapping_mul(k + 1), 0xD1B5_4A32_D192_ED03u64.wrapping_mul(k + 3), 5 + k, 7 + k] };
+                let mut r2 = SeededRandomNumberGenerator::new(seed);
+                s2 = e2.encrypt_subject(&k2).unwrap().sskr_split_using(&spec, &k2, &mut r2).unwrap().into_iter().flatten().collect();
+                if same_id || ident(&s2[0]) != ident(&s1[0]) { break }
+            }
+            if (ident(&s2[0]) == ident(&s1[0])) != same_id { acc2.viol("C11|mixed|machinery", "could not produce the intended identifier relation between the two splits", format!("mixed/pol{mi}"), json!({})); continue }
+            acc2.inc(if same_id { "mixed_split_pairs_same_identifier" } else { "mixed_split_pairs_different_identifier" });
             let (w1, w2) = (bind::observe(&e1.subject()), bind::observe(&e2.subject()));
             let n = s1.len();
             for m1 in 0u32..(1 << n) { for m2 in 1u32..(1 << n) {
-                for first_from_2 in [false, true] {
+                // does a share mask satisfy the policy? (shares are listed group by group)
+                let satisfies = |mask: u32| { let mut off = 0; let mut ok = 0; for &(t, nn) in groups.iter() { let c = (0..nn).filter(|i| mask >> (off + i) & 1 == 1).count(); if c >= t { ok += 1 } off += nn } ok >= *gt };
+                for (first_from_2, interleaved) in [(false, false), (true, false), (false, true), (true, true)] {
                     let a: Vec<&Envelope> = (0..n).filter(|i| m1 >> i & 1 == 1).map(|i| &s1[i]).collect();
                     let b: Vec<&Envelope> = (0..n).filter(|i| m2 >> i & 1 == 1).map(|i| &s2[i]).collect();
-                    let subset: Vec<&Envelope> = if first_from_2 { b.iter().chain(a.iter()).cloned().collect() } else { a.iter().chain(b.iter()).cloned().collect() };
+                    let (x, y) = if first_from_2 { (&b, &a) } else { (&a, &b) };
+                    // interleaved: the first share of one split, then the other split's shares, then the rest of the first split
+                    if interleaved && (x.len() < 2 || y.is_empty()) { continue }
+                    let subset: Vec<&Envelope> = if interleaved { x.iter().take(1).chain(y.iter()).chain(x.iter().skip(1)).cloned().collect() } else { x.iter().chain(y.iter()).cloned().collect() };
                     if subset.is_empty() { continue }
                     acc2.inc("mixed_joins");
                     let first_is_2 = first_from_2 || a.is_empty();
-                    let cid = || format!("mixed/pol{mi}/sameid{}/m1={m1}/m2={m2}/first2={}", same_id as u8, first_from_2 as u8);
+                    let first_split_has_quorum = if first_is_2 { satisfies(m2) } else { satisfies(m1) };
+                    let cid = || format!("mixed/pol{mi}/sameid{}/m1={m1}/m2={m2}/first2={}/il{}", same_id as u8, first_from_2 as u8, interleaved as u8);
                     match catch(|| Envelope::sskr_join(&subset)) {
                         Err(p) => acc2.viol(format!("C11|mixed|panic|{}", p.loc), p.msg.clone(), cid(), json!({"policy": groups, "same_identifier": same_id})),
                         Ok(Ok(r)) => { let o = bind::observe(&r); let want = if first_is_2 { &w2 } else { &w1 }; if &o != want { acc2.viol("C11|mixed|returns-other", "join of shares mixed from two splits returned something else than the first envelope's original subject", cid(), json!({"policy": groups, "same_identifier": same_id})) } else { acc2.nontrivial(&("mix", mi, same_id, m1, m2, first_from_2)) } }
-                        Ok(Err(_)) => acc2.inc("mixed_joins_refused"),
+                        // the envelope being opened is the first one: when the set contains a quorum of ITS split, shares of a foreign split (another
+                        // identifier) next to, before or between them do not take the quorum away
+                        Ok(Err(er)) => { acc2.inc("mixed_joins_refused"); if !same_id && first_split_has_quorum { acc2.viol("C11|mixed|quorum-of-the-first-envelope's-split-present|refused", format!("a quorum of the first envelope's split is present, next to shares of another split with a different identifier, and the join fails: {er}"), cid(), json!({"policy": groups, "interleaved": interleaved})) } }
                     }
                 }
             } }
